@@ -195,6 +195,36 @@ mod h {
         assert!(back.to_i64() == a);
     }
     /// vacuity witness: must FAIL
+
+    /// C12 / C06 / C01 / C18 (integer side): for EVERY 32-byte channel id the scalar fed to the challenge and to the
+    /// signed tuples is `from_raw` of its four little-endian 64-bit words - every byte reaches exactly its own position
+    /// (no word dropped, duplicated, shifted or misaligned).  Two ids therefore give the same scalar only if they are
+    /// congruent mod q as 256-bit integers.
+    #[kani::proof]
+    #[kani::unwind(9)]
+    fn channel_id_scalar_uses_every_byte_once() {
+        let b: [u8; 32] = kani::any();
+        let s = channel_id_to_scalar(b);
+        let mut w = [0u64; 4];
+        let mut k = 0;
+        while k < 4 {
+            let mut x = 0u64;
+            let mut j = 0;
+            while j < 8 {
+                x |= (b[8 * k + j] as u64) << (8 * j);
+                j += 1;
+            }
+            w[k] = x;
+            k += 1;
+        }
+        assert!(s == Scalar::from_raw(w));
+        // and a one-byte change always changes the (unreduced) word vector
+        let i: usize = kani::any();
+        kani::assume(i < 32);
+        let mut b2 = b;
+        b2[i] ^= 1;
+        assert!(channel_id_to_scalar(b2) != s);
+    }
     #[kani::proof]
     fn vacuity_witness_must_fail() {
         let b: u64 = kani::any();
